@@ -52,6 +52,7 @@ enum Op : int {
   kCoAwaitAwait,  // a coroutine co_awaits Await(copy), then reads the copy, which must be ready
   kCoAwaitSticky,  // a coroutine running in e co_awaits AwaitSticky(copy): resumed in e, the copy is ready
   kCoAwaitOn,      // a coroutine co_awaits AwaitOn(e, copy): resumed in e, the copy is ready
+  kShareExecInherit,  // Share(copy, e).Then(f): the unique FutureOn carries e, a continuation without an executor runs in e
   kThenInherit,       // SharedFutureOn::Then(f): runs on the executor the shared state carries (degrades to Then(e) otherwise)
   kSubscribeInherit,  // SharedFutureOn::Subscribe(f)
   kWhenAllOwn,  // WhenAll<None>(std::move(own copy), other ready shared future): consumes the observer's copy, always last
@@ -65,7 +66,7 @@ enum Op : int {
 };
 const char* kOpNames[] = {"ThenInline", "Then(e)", "SubscribeInline", "Subscribe(e)", "Share().Get", "Share(e).ThenInline", "Connect(unique promise)",
                           "Connect(shared promise)", "Wait+Touch", "Get const&", "Ready()+Touch", "copy, use the copy, destroy it", "WhenAll(copy, copy)",
-                          "WhenAny(copy, copy)", "co_await copy", "co_await Await(copy)", "co_await AwaitSticky(copy)", "co_await AwaitOn(e, copy)", "SharedFutureOn::Then(f)", "SharedFutureOn::Subscribe(f)", "WhenAll(move(own), other)", "WhenAny(move(own), copy)", "WhenAny(begin,2){copy, later}", "WhenAll<None>(begin,2){copy, later}", "Ready() then Touch&&", "Get&&", "drop own copy"};
+                          "WhenAny(copy, copy)", "co_await copy", "co_await Await(copy)", "co_await AwaitSticky(copy)", "co_await AwaitOn(e, copy)", "Share(copy, e).Then(f)", "SharedFutureOn::Then(f)", "SharedFutureOn::Subscribe(f)", "WhenAll(move(own), other)", "WhenAny(move(own), copy)", "WhenAny(begin,2){copy, later}", "WhenAll<None>(begin,2){copy, later}", "Ready() then Touch&&", "Get&&", "drop own copy"};
 enum Producer : int { kSetValue, kSetError, kSetException, kDropPromise, kProducerCount };
 const char* kProducerNames[] = {"Set(value)", "Set(error)", "Set(exception)", "drop promise"};
 
@@ -127,7 +128,8 @@ class Case final : public sim::CaseBase {
         if (by_reference && consumes) {
           op = kGetConst;
         }
-        const bool attaches = op == kThenInline || op == kThenExec || op == kSubscribeInline || op == kSubscribeExec || op == kThenInherit || op == kSubscribeInherit;
+        const bool attaches = op == kThenInline || op == kThenExec || op == kSubscribeInline || op == kSubscribeExec || op == kThenInherit || op == kSubscribeInherit ||
+                              op == kShareExecInherit;
         ops.push_back(op + 100 * (attaches ? static_cast<int>(g.Draw(3)) : 0));
         if (!by_reference && consumes) {
           break;
@@ -340,6 +342,13 @@ class Case final : public sim::CaseBase {
             Saw(o, op, sim::Observe(r, "Share(e).ThenInline"));
           });
           (void)std::move(f2).Get();
+        } break;
+        case kShareExecInherit: {
+          SIM_PROBE("share_with_executor_then_inherited");
+          WithCallback(o, kThenExec, fl, [&](auto cb) {
+            auto f = yaclib::Share(c, *proxy).Then(std::move(cb));
+            (void)std::move(f).Get();
+          });
         } break;
         case kConnectUnique: {
           auto [f, p] = yaclib::MakeContract<T, E>();
